@@ -135,6 +135,25 @@ def threshold_two(r, typ, ver, ks):
             {"ev": "Read", "h": "r2"}]
 
 
+def restore(r, comp, inp, typ, ver, ks):
+    """Stores: a second writer hands in an EQUAL datum for the same key (re-store), then writes to its own object; what
+    the store hands out afterwards must be unaffected (the replace / already-present path must copy like the insert path)."""
+    C = COMPS[comp]
+    k = iter(ks)
+    M = lambda h: {"ev": "Mutate", "h": h, "k": next(k)}
+    R = lambda h: {"ev": "Read", "h": h}
+    outs = C["out"][typ]
+    G = lambda to, of: {"ev": "Get", "p": r.choice(outs), "to": to, "of": of, "arg": r.randrange(4)}
+    steps = [cfg(comp, typ, ver, r.randrange(1000), same=True), {"ev": "New", "h": "w1"}, {"ev": "Put", "p": inp, "h": "w1"}]
+    if r.random() < 0.5:
+        steps += [G("r0", "w1")]
+    steps += [{"ev": "New", "h": "w2"}, {"ev": "Put", "p": inp, "h": "w2"}, G("r1", "w2"), M("w2"), G("r2", "w2"), R("r1"),
+              M("w1"), G("r3", "w1"), R("r2"), M("r2"), G("r4", "w2"), R("r3"), R("w2")]
+    if r.random() < 0.5:   # a third equal hand-in after the second writer's object was changed behind the store's back
+        steps += [{"ev": "New", "h": "w3"}, {"ev": "Put", "p": inp, "h": "w3"}, G("r5", "w3"), M("w3"), G("r6", "w1"), R("r5")]
+    return steps
+
+
 def enumerated(seed, thorough):
     r = vlib.rng(seed, "c18enum")
     out = []
@@ -148,6 +167,10 @@ def enumerated(seed, thorough):
                 if comp == "parsigdb" and typ != "signature":
                     for _ in range(reps):
                         out.append(threshold_two(r, typ, ver, [r.randrange(64) for _ in range(4)]))
+                if not C["fan"]:
+                    for inp in C["in"]:
+                        for _ in range(3 * reps):
+                            out.append(restore(r, comp, inp, typ, ver, [r.randrange(64) for _ in range(6)]))
     return out
 
 
